@@ -35,7 +35,8 @@ REPL = [
  ("tree BEFORE the repair named (F01…F56)", "tree BEFORE the repair named (F01…F58)"),
  ("tree BEFORE the repair named (F01…F58)", "tree BEFORE the repair named (F01…F60)"),
  ("`/repo` carries only `fix:` commits (F01-F58).", "`/repo` carries only `fix:` commits (F01-F60)."),
- ("`/repo` carries only `fix:` commits (F01-F60).", "`/repo` carries only `fix:` commits (F01-F62)."),
+ ("`/repo` carries only `fix:` commits (F01-F60).", "`/repo` carries only `fix:` commits (F01-F62; F61 was recorded as open first and repaired three hours later)."),
+ ("`/repo` carries only `fix:` commits (F01-F62; F61 is recorded, not repaired).", "`/repo` carries only `fix:` commits (F01-F62; F61 was recorded as open first and repaired three hours later)."),
  ("tree BEFORE the repair named (F01…F60)", "tree BEFORE the repair named (F01…F62)"),
  ("K01 = `compute_distance` (f64, out of\n  Verus' reach).", "K01 = `compute_distance` (f64, out of\n  Verus' reach), K02 = `WrapConfig::config_max_line_length` and K03 = `AmbiguousDiffMinusCounter::count_line` (also\n  under Verus contracts; Kani adds the counterexample that Verus cannot give)."),
 ]
